@@ -2,11 +2,13 @@ package main
 
 import (
 	"bytes"
-	"regexp"
 	"context"
 	"fmt"
+	"reflect"
+	"regexp"
 	"strings"
 	"testing/fstest"
+	"time"
 
 	"github.com/titpetric/vuego"
 
@@ -245,6 +247,7 @@ var c02BrRe = regexp.MustCompile(`<br([^>]*)></br>`)
 func init() { streams["C02"] = runC02 }
 
 func runC02(r *Run) {
+	c02TypedValues(r)
 	r.Imports = []string{"Model.Tok"}
 	r.Rule("directive-free fragments and full documents generated from a grammar of parser-stable HTML (block, inline, void, list, explicit table, pre / textarea, script / style elements; attributes and text written with character references &amp; &lt; &gt; &quot; &#39; &#x3c; &nbsp; &copy;; doctype): " +
 		"parse(template) and parse(render(template)) with x/net/html must be the same document, whitespace and comments aside; for fragments inside the model's vocabulary the theorem's reading function (tokenize, normalise, build, decode) is evaluated in Coq on the bytes the implementation wrote and must return the parsed template; " +
@@ -323,6 +326,45 @@ func runC02(r *Run) {
 		r.Eval("vhtml:"+v, true, nil)
 		if err != nil || !strings.Contains(out, strings.TrimSpace(v)) {
 			r.Fail("v-html output does not contain its value verbatim", map[string]string{"oracle": "vhtml-verbatim"}, map[string]any{"value": v, "output": out})
+		}
+	}
+}
+
+// values that are not strings: the parsed text / attribute value is the neighbours around the value's string form
+// (fmt.Sprint), in text, in an interpolated attribute, in a bound attribute, in v-text and through a loop
+func c02TypedValues(r *Run) {
+	type named float32
+	vals := []any{float32(0.1), float32(72.3), float32(3.14), float32(0.5), float32(1e10), 0.1, 1e21, 1e-7, 123456789.0, float64(float32(0.1)),
+		int8(-8), int64(1) << 40, uint8(200), uint64(1) << 63, true, false, named(0.1), []any{float32(0.1), 2}, map[string]any{"k": float32(72.3)}, complex64(1 + 2i),
+		time.Duration(1500) * time.Millisecond, [2]float32{0.1, 0.2}, struct{ W float32 }{72.3}, &struct{ W float32 }{0.1}}
+	for _, v := range vals {
+		want := fmt.Sprint(v)
+		if rv := reflect.ValueOf(v); rv.Kind() == reflect.Ptr {
+			continue // an address
+		}
+		for _, t := range []struct{ name, tpl, attr, pre, post string }{
+			{"text", `<p data-m="1">w={{ v }}kg</p>`, "", "w=", "kg"},
+			{"attr", `<p data-m="1" title="w={{ v }}kg">x</p>`, "title", "w=", "kg"},
+			{"bound", `<p data-m="1" :title="v">x</p>`, "title", "", ""},
+			{"v-text", `<p data-m="1" v-text="v">old</p>`, "", "", ""},
+			{"loop", `<div v-for="x in vs"><p data-m="1">w={{ x }}kg</p></div>`, "", "w=", "kg"},
+			{"field", `<p data-m="1">w={{ m.k }}kg</p>`, "", "w=", "kg"},
+		} {
+			out, err := c01RenderAny(nil, t.tpl, v, false)
+			_, sink, found := c01Parse(out, "1", t.attr)
+			r.Eval("typed-interp:"+t.name+":"+want, true, nil)
+			r.Count("stream:typed-values(oracle only)")
+			w := t.pre + want + t.post
+			if t.name == "field" {
+				w = t.pre + t.post // m is not defined in this data: nothing is printed
+			}
+			if t.name == "bound" && (want == "false" || want == "0" || want == "") {
+				continue // a falsy bound value omits the attribute (C14)
+			}
+			if err != nil || !found || strings.Join(strings.Fields(sink), " ") != strings.Join(strings.Fields(w), " ") {
+				r.Fail("a value that is not a string does not appear as its string form between its neighbours", map[string]string{"oracle": "typed-interp", "position": t.name},
+					map[string]any{"template": t.tpl, "value": fmt.Sprintf("%T(%v)", v, v), "expected": w, "parsed": sink, "output": out, "err": fmt.Sprint(err)})
+			}
 		}
 	}
 }
